@@ -1,2 +1,3 @@
 """Import every sidecar module (registers contracts in pyvc.specs.REG)."""
 from . import core        # noqa: F401
+from . import environments  # noqa: F401
